@@ -17,7 +17,7 @@ type c15 struct{}
 func (c15) ID() string    { return "C15" }
 func (c15) Level() string { return "exploration" }
 func (c15) Rule() string {
-	return "cases = problems rich in binary clauses: every graph on <=5 vertices as binary clauses over negative literals (every edge set; for <=3 edges every clause order and every repeated edge), each alone and combined with every set of <=2 extra clauses (positive clause over all vertices, mixed-sign binaries, ternary clauses); every sign pattern of the 3- and 4-cliques; all S4 multisets of <=3 clauses; PB/cardinality problems containing two-literal constraints. Oracle: the clauses of the Problem after DetectAtMostOne, read structurally (Units, Clauses[i].Get/Weight/Cardinality), have exactly the input's model set over the same variables; CountModels and Solve verdict agree as well. Non-trivial = the detection changed the clause list."
+	return "cases = problems rich in binary clauses: every graph on <=5 vertices as binary clauses over negative literals (every edge set; for <=3 edges every clause order and every repeated edge), each alone and combined with every set of <=2 extra clauses; every graph on 6 vertices alone and with one extra clause (positive clause over all vertices, mixed-sign binaries, ternary clauses); every sign pattern of the 3- and 4-cliques; all S4 multisets of <=3 clauses; PB/cardinality problems containing two-literal constraints. Oracle: the clauses of the Problem after DetectAtMostOne, read structurally (Units, Clauses[i].Get/Weight/Cardinality), have exactly the input's model set over the same variables; CountModels and Solve verdict agree as well. Non-trivial = the detection changed the clause list."
 }
 func (c15) Assumptions() []string {
 	return []string{"truth-table reference is correct", "the structural reading of a Problem (exported accessors) is what the solver is later given"}
@@ -73,7 +73,7 @@ func (c15) Enumerate(tier string, seed int64, yield func(string, core.Case) bool
 		}
 		return ex
 	}
-	if thorough { // every graph on 6 vertices (32768 edge sets), plain and with one extra clause
+	{ // every graph on 6 vertices (32768 edge sets), plain and with one extra clause
 		var e6 [][2]int
 		for a := 1; a <= 6; a++ {
 			for b := a + 1; b <= 6; b++ {
